@@ -683,6 +683,7 @@ pub fn cache_life(out: &mut Out, rng: &mut Rng, cfg: &Config, g: &GenOpts) {
     let item = if cfg.ignore_internal { 0 } else { verif::cache_item_size(&s.rig.cache) as i64 };
     let unit = ((cfg.max_cost - 0) / 6).max(1);
     let mut closed = false;
+    let fine_clock = g.w_ttl >= 50 && rng.chance(1, 2);
     for _ in 0..g.ops {
         let idx = rng.below(universe);
         let conf = if g.collisions { rng.range(1, 2) } else { 0 };
@@ -716,10 +717,16 @@ pub fn cache_life(out: &mut Out, rng: &mut Rng, cfg: &Config, g: &GenOpts) {
             s.proc_clear();
             continue;
         }
-        if r < 29 {
-            let adv = *rng.pick(&[0u64, 1, 999, SEC / 2, SEC - 1, SEC, SEC + 1, 2 * SEC, 5 * SEC]);
+        if r < 29 || (fine_clock && r < 40) {
+            // coarse lives jump across second boundaries; fine lives creep so that a cleanup
+            // falls between a bucket becoming due and the entries in it expiring
+            let adv = if fine_clock {
+                *rng.pick(&[10_000_000u64, 50_000_000, 100_000_000, 150_000_000, 250_000_000, 400_000_000])
+            } else {
+                *rng.pick(&[0u64, 1, 999, SEC / 2, SEC - 1, SEC, SEC + 1, 2 * SEC, 5 * SEC])
+            };
             s.clock(adv);
-            if rng.chance(2, 3) {
+            if fine_clock || rng.chance(2, 3) {
                 s.proc_tick();
             }
             continue;
@@ -748,7 +755,7 @@ pub fn cache_life(out: &mut Out, rng: &mut Rng, cfg: &Config, g: &GenOpts) {
                         _ => rng.range(1, (2 * unit) as u64) as i64,
                     };
                     let ttl = if rng.below(100) < g.w_ttl {
-                        *rng.pick(&[1u64, SEC / 2, SEC - 1, SEC, SEC + 1, 2 * SEC, 3 * SEC + 7, 3600 * SEC])
+                        *rng.pick(&[1u64, SEC / 2, 700_000_000, SEC - 1, SEC, SEC + 1, SEC + SEC / 2, 2 * SEC, 3 * SEC + 7, 3600 * SEC])
                     } else {
                         0
                     };
